@@ -720,3 +720,54 @@ Proof.
   - clear. induction xs; simpl; auto. rewrite Z.eqb_refl. exact IHxs.
   - apply Qeq_bool_iff. simpl. rewrite upd_completed. rewrite HN. simpl. reflexivity.
 Qed.
+
+(* ------------------------------------------------------------------ an abandoned track() loop *)
+Lemma fresh_advances : forall p0 total (ys : list Z) clk,
+  find_task (p_next p0) (p_tasks p0) = None ->
+  exists t, find_task (p_next p0)
+              (p_tasks (run p0 (with_clock (AddTask true total 0 true :: map (fun _ => Advance (p_next p0) 1) ys) clk))) = Some t /\
+            t_completed t == qZ (zlen ys).
+Proof.
+  intros p0 total ys clk Hfresh.
+  remember (with_clock (AddTask true total 0 true :: map (fun _ => Advance (p_next p0) 1) ys) clk) as h eqn:Eh.
+  assert (Hops : ops_of h = AddTask true total 0 true :: map (fun _ => Advance (p_next p0) 1) ys)
+    by (subst h; apply ops_with_clock).
+  clear Eh. destruct h as [|[[o0 a0] b0] h]; [discriminate|]. unfold ops_of in Hops. simpl in Hops.
+  injection Hops as -> Hrest. simpl.
+  assert (Hf : find_task (p_next p0) (p_tasks (step_total p0 (AddTask true total 0 true) a0 b0))
+               = Some (new_task (p_next p0) true total 0 true a0)).
+  { rewrite step_tasks. rewrite find_app, Hfresh. simpl. rewrite Z.eqb_refl. reflexivity. }
+  assert (Ha : Forall (is_adv (p_next p0)) (ops_of h)).
+  { unfold ops_of. rewrite Hrest. clear. induction ys; simpl; constructor; auto. exists 1. reflexivity. }
+  destruct (run_advs (p_next p0) h _ _ Hf Ha) as (t & Hft & Hct). exists t. split; auto.
+  rewrite Hct. unfold ops_of. rewrite Hrest, map_map. simpl. rewrite sumQ_ones. ring.
+Qed.
+
+Theorem track_direct_abandoned_count : forall p0 total (xs : list Z) k clk,
+  find_task (p_next p0) (p_tasks p0) = None -> (1 <= k <= length xs)%nat ->
+  let evs := track_direct_abandoned None (p_next p0) total xs k in
+  yields evs = firstn k xs /\
+  exists t, find_task (p_next p0) (p_tasks (run p0 (with_clock (calls evs) clk))) = Some t /\
+            t_completed t == qZ (Z.of_nat k - 1).
+Proof.
+  intros p0 total xs k clk Hfresh Hk evs. subst evs. unfold track_direct_abandoned. simpl track_setup. cbv beta iota.
+  destruct (skipn (k - 1) xs) as [|x rest] eqn:Es.
+  { exfalso. assert (length (skipn (k - 1) xs) = (length xs - (k - 1))%nat) by apply skipn_length.
+    rewrite Es in H. simpl in H. lia. }
+  assert (Hfk : firstn k xs = firstn (k - 1) xs ++ [x]).
+  { rewrite <- (firstn_skipn (k - 1) xs) at 1. rewrite Es.
+    replace k with ((k - 1) + 1)%nat at 1 by lia.
+    assert (Hl : length (firstn (k - 1) xs) = (k - 1)%nat) by (apply firstn_length_le; lia).
+    rewrite <- Hl at 1. rewrite firstn_app_2. reflexivity. }
+  split.
+  - rewrite !yields_app. simpl. rewrite Hfk. f_equal.
+    clear. induction (firstn (k - 1) xs); simpl; auto. unfold yields in *. simpl. rewrite IHl. reflexivity.
+  - rewrite !calls_app. simpl. rewrite app_nil_r.
+    assert (Hc : calls (flat_map (fun x0 : Z => [Yield x0; Do (Advance (p_next p0) 1)]) (firstn (k - 1) xs))
+                 = map (fun _ => Advance (p_next p0) 1) (firstn (k - 1) xs)).
+    { clear. induction (firstn (k - 1) xs); simpl; auto. f_equal. exact IHl. }
+    rewrite Hc.
+    destruct (fresh_advances p0 total (firstn (k - 1) xs) clk Hfresh) as (t & Hft & Hct).
+    exists t. split; auto. rewrite Hct. unfold zlen. rewrite firstn_length_le by lia.
+    unfold qZ. rewrite Nat2Z.inj_sub by lia. reflexivity.
+Qed.
